@@ -120,3 +120,12 @@ func verifEnv(name string) string { return os.Getenv(name) }
 // verifOverrides(true) activates the harness' verifOverride_<name> functions
 // inside symgo; natively it is a no-op (harnesses use concrete inputs there).
 func verifOverrides(on bool) {}
+
+// verifSetMapOrder(p) forces the order of the following map iterations inside
+// symgo (permutation p of the insertion order; -1 = default).  Natively a no-op:
+// Go's own random order applies.
+func verifSetMapOrder(p int) {}
+
+// verifMapOrders: how many enumeration orders a site lemma tries: the 6
+// permutations inside symgo, many repetitions under Go's random order natively.
+func verifMapOrders() int { return 400 }
